@@ -98,11 +98,14 @@ impl Scenario for C11Tcp {
                     // holds, from up to three threads at once): no delivery is promised for those, but
                     // the exporter must survive them and keep its framing
                     let overload = buffer.is_some() && r.chance(150);
+                    // with a large (or no) buffer, sometimes a long burst that is still within it: a
+                    // backlog of dozens of frames per client
+                    let flood = !overload && buffer.map(|b| b >= 1024).unwrap_or(true) && r.chance(120);
                     let nt = if overload { r.range(2, 3) as usize } else { r.range(1, 2) as usize };
                     let mut per_thread = vec![];
-                    let mut left = if overload { buffer.unwrap_or(4).min(8) * 2 + 3 } else { cap };
+                    let mut left = if overload { buffer.unwrap_or(4).min(8) * 2 + 3 } else if flood { 90 } else { cap };
                     for _ in 0..nt {
-                        let n = r.range(1, left.max(1) as u64) as usize;
+                        let n = if flood { r.range(34, 45) as usize } else { r.range(1, left.max(1) as u64) as usize };
                         left = left.saturating_sub(n);
                         per_thread.push((0..n).map(|_| (r.below(3) as usize, r.below(6) as u8)).collect());
                         if left == 0 {
@@ -436,6 +439,20 @@ fn check(plan: &Plan, emits: &[Emit], clients: &BTreeMap<usize, ClientRec>, desc
                     let units: BTreeSet<Option<String>> = describes.iter().filter(|d| d.1 == m).map(|d| if d.2 { Some("bytes".to_string()) } else { None }).collect();
                     if !units.contains(unit) {
                         return violation("metadata-wrong", format!("client {}: {} unit {:?} was never given", ci, name, unit));
+                    }
+                    // "the metadata known when it connected": when every describe of this metric made
+                    // before the connect had been taken in by the transport (an idle point lies between
+                    // the last of them and the connect, all within the channel's rate), the first
+                    // metadata frame for it must carry that last describe's unit
+                    if !seen_metric && !meta_names.contains(name) {
+                        let before: Vec<&(usize, usize, bool)> = describes.iter().filter(|d| d.1 == m && d.0 < c.connect_step).collect();
+                        if let Some(last) = before.last() {
+                            let settled = plan.steps.iter().enumerate().any(|(i, s)| *s == Step::Idle && i > last.0 && i < c.connect_step) && before.iter().all(|d| desc_ok.get(&d.0).copied().unwrap_or(false));
+                            let want = if last.2 { Some("bytes".to_string()) } else { None };
+                            if settled && *unit != want {
+                                return violation("metadata-stale", format!("client {} (connected at step {}): the metadata sent for {} carries unit {:?}, but the last description given before it connected (step {}, followed by a transport-idle point) had unit {:?}", ci, c.connect_step, name, unit, last.0, want));
+                            }
+                        }
                     }
                     if !meta_names.insert(name.clone()) {
                         return violation("metadata-duplicate", format!("client {}: metadata for {} sent twice", ci, name));
